@@ -23,7 +23,8 @@ theorem C07_plan_covers_requested_columns (n : Nat) (main : Option Nat) (c : Clu
 /-! ## The composed `build_table` -/
 
 section
-variable {α : Type} [Field α] [LinearOrder α] [IsStrictOrderedRing α] [FloorRing α] [Inhabited α]
+variable {α : Type} [Add α] [Sub α] [Mul α] [Div α] [LT α] [LE α] [BEq α]
+  [DecidableLT α] [DecidableLE α] [ScalarOps α] [Inhabited α]
 
 theorem materializeGM_cols (E : Env α) (F : Forest α) (convs : List (Conv α)) (cols : List Nat)
     (streams : List Nat × List (Draw α)) (s s' : List (Draw α)) (res : MTable (Cell α) α)
@@ -107,3 +108,62 @@ theorem C07_buildTable_columns (E : Env α) (F : Forest α) (convs : List (Conv 
       exact ⟨i, by simp [hi], by simp⟩
 
 end
+
+/-- the columns a well-formed plan mentions anywhere (initial, stitch or derived) are exactly the table's columns -/
+theorem wellFormed_columns (n : Nat) (main : Option Nat) (c : Clusters) (h : WellFormedPlan n main c) (j : Nat) :
+    (j ∈ c.initial ∨ ∃ dc ∈ c.derivedClusters, j ∈ dc.stitch ∨ j ∈ dc.derived) ↔ j < n := by
+  have hmem : ∀ x, x ∈ c.initial ++ (c.derivedClusters.map (·.derived)).flatten ↔ x < n := by
+    intro x; rw [h.complete.mem_iff, List.mem_range]
+  -- stitch columns are introduced earlier, hence among the plan's columns
+  have hst : ∀ (intro : List Nat) (l : List DerivedCluster), DerivedOK main intro l →
+      ∀ dc ∈ l, ∀ x ∈ dc.stitch, x ∈ intro ++ (l.map (·.derived)).flatten := by
+    intro intro l
+    induction l generalizing intro with
+    | nil => intro _ dc hdc; simp at hdc
+    | cons d rest ih =>
+      intro hok dc hdc x hx
+      obtain ⟨_, _, hsub, _, _, hrest⟩ := hok
+      rcases List.mem_cons.mp hdc with rfl | hdc
+      · simp [hsub x hx]
+      · have := ih (intro ++ d.derived) hrest dc hdc x hx
+        simp only [List.map_cons, List.flatten_cons, List.mem_append] at this ⊢
+        tauto
+  constructor
+  · rintro (h1 | ⟨dc, hdc, h2 | h2⟩)
+    · exact (hmem j).mp (by simp [h1])
+    · exact (hmem j).mp (hst c.initial c.derivedClusters h.derived_ok dc hdc j h2)
+    · refine (hmem j).mp ?_
+      simp only [List.mem_append, List.mem_flatten, List.mem_map]
+      exact Or.inr ⟨dc.derived, ⟨dc, hdc, rfl⟩, h2⟩
+  · intro hj
+    have := (hmem j).mpr hj
+    simp only [List.mem_append, List.mem_flatten, List.mem_map] at this
+    rcases this with h1 | ⟨l, ⟨dc, hdc, rfl⟩, h2⟩
+    · exact Or.inl h1
+    · exact Or.inr ⟨dc, hdc, Or.inr h2⟩
+
+/-- C07 (schema, whole default-strategy synthesis in the model): whenever `sampleDefault` finishes — measures, plan
+search, materialisation and stitching, for every forest, parameter set, main column and RNG streams — the assembled
+table has exactly the input's columns `0 .. n-1` (sorted, which `sample()` then maps back to the input order). -/
+theorem C07_sampleDefault_schema (E : Env Float) (F : Forest Float) (convs : List (Conv Float)) (isIntegral : List Bool)
+    (main : Option Nat) (mw th alpha : Float) (streams : List (List Nat × List (Draw Float))) (s s' : List (Draw Float))
+    (cl : Clusters) (res : MTable (Cell Float) Float) (hn : 0 < F.names.length)
+    (hmain : ∀ m, main = some m → m < F.names.length)
+    (h : (sampleDefault E F convs isIntegral main mw th alpha streams).run s = .ok ((cl, res), s')) :
+    WellFormedPlan F.names.length main cl ∧ ∀ j, j ∈ res.2 ↔ j < F.names.length := by
+  unfold sampleDefault at h
+  obtain ⟨cl', s1, h1, h⟩ := StateT_bind_ok _ _ _ _ _ h
+  obtain ⟨t, s2, h2, h⟩ := StateT_bind_ok _ _ _ _ _ h
+  obtain ⟨he, _⟩ := StateT_pure_ok _ _ _ _ h
+  simp only [Prod.mk.injEq] at he
+  obtain ⟨rfl, rfl⟩ := he
+  have hnum : (clusteringContext E F main).numColumns = F.names.length := by
+    simp [clusteringContext, ClusteringContext.numColumns]
+  have hwf := C13_solve_wellFormed (clusteringContext E F main) mw th alpha s s1 cl' (by rw [hnum]; exact hn)
+    (by intro m hm; rw [hnum]; exact hmain m hm) h1
+  rw [hnum] at hwf
+  have hwf' : WellFormedPlan F.names.length main cl' := hwf
+  refine ⟨hwf', fun j => ?_⟩
+  rw [C07_buildTable_columns E F convs isIntegral _ 0.7 cl' streams s1 s2 t h2 j]
+  exact wellFormed_columns _ _ _ hwf' j
+
